@@ -43,6 +43,7 @@ type Engine struct {
 	immPrefixes []string
 	immProblems []string
 	immChecked  bool
+	privCache   map[*ssa.Function]map[*ssa.Alloc]bool
 	typeInvs    map[string]*typeInvInfo
 	tiProblems  []string
 	hasWait     map[*ssa.Function]bool
@@ -62,7 +63,7 @@ func loadEngine(repo string) (*Engine, error) {
 	e := &Engine{repo: repo, pkgByName: map[string]*ssa.Package{}, fnByKey: map[string][]*ssa.Function{},
 		tags: map[string]int{}, tagTypes: map[int]types.Type{}, ufuncs: map[string]UFunc{}, maxVC: 400000,
 		fnIDs: map[*ssa.Function]int{}, loopCache: map[*ssa.Function]map[*ssa.BasicBlock]map[*ssa.BasicBlock]bool{},
-		implCache: map[string][]types.Type{}, keyInfo: map[string]keyInfo{}, reachCache: map[string]bool{}, cbFree: map[*types.Package]bool{}}
+		implCache: map[string][]types.Type{}, keyInfo: map[string]keyInfo{}, privCache: map[*ssa.Function]map[*ssa.Alloc]bool{}, reachCache: map[string]bool{}, cbFree: map[*types.Package]bool{}}
 	for _, p := range pkgs {
 		for _, pe := range p.Errors {
 			e.loadErrs = append(e.loadErrs, pe.Error())
@@ -470,6 +471,14 @@ func (e *Engine) verifyFunc(fn *ssa.Function, con *Contract) *FnCtx {
 		s.env[p] = v
 		c.entryVals[p] = v
 		s.names[p.Name()] = nameBinding{p, false}
+		if kindOf(p.Type()) == kStruct {
+			if info, ok := e.typeInvs[typeKey(p.Type())]; ok && !info.ctors[topFn(fn)] {
+				if pr := e.contracts.Preds[info.pred]; pr != nil && len(pr.Params) == 1 {
+					x := &EvalCtx{s: s, vars: map[string]Val{pr.Params[0]: v}, pkg: e.pkgByName[info.pkg]}
+					s.assume(x.eval(pr.Body).S)
+				}
+			}
+		}
 	}
 	// pointer receivers of methods are non-nil (checked at every static call site)
 	if fn.Signature.Recv() != nil && len(fn.Params) > 0 && kindOf(fn.Params[0].Type()) == kPtr {
@@ -1028,6 +1037,10 @@ func (e *Engine) initTypeInvs() {
 					pt = derefType(fa.X.Type())
 				} else {
 					pt = derefType(st.Addr.Type())
+					// copying a whole (valid) object into a fresh local keeps the invariant
+					if _, isAlloc := st.Addr.(*ssa.Alloc); isAlloc && pt != nil && kindOf(pt) == kStruct {
+						continue
+					}
 				}
 				if pt == nil {
 					continue
@@ -1103,4 +1116,24 @@ func (e *Engine) ifaceContractsFor(fn *ssa.Function) []*Contract {
 	}
 	sort.Slice(out, func(i, j int) bool { return out[i].Key < out[j].Key })
 	return out
+}
+
+// spawnedUnjoined: the closure is the body of a `go` statement in a function that does not join it.
+func (e *Engine) spawnedUnjoined(fn *ssa.Function) bool {
+	par := fn.Parent()
+	if par == nil {
+		return false
+	}
+	for _, b := range par.Blocks {
+		for _, in := range b.Instrs {
+			g, ok := in.(*ssa.Go)
+			if !ok {
+				continue
+			}
+			if mc, ok := g.Call.Value.(*ssa.MakeClosure); ok && mc.Fn == fn && !e.hasWait[par] {
+				return true
+			}
+		}
+	}
+	return false
 }
